@@ -522,6 +522,8 @@ def overflow_depot(ctx):
                 call("model::vehicle_types::VehicleTypes::iter") in al)
         ctx.decide(o, ok, detail, detail)
     overflow_default(ctx, "R5")
+    from . import formulas
+    formulas.overflow_capacity_formula(ctx, "R5")
     from .C06 import overflow_covers_maintenance
     overflow_covers_maintenance(ctx, "R5")
 
@@ -529,6 +531,7 @@ def overflow_depot(ctx):
 def rules(ctx):
     from . import formulas
     formulas.network_formulas(ctx, "R6")
+    formulas.network_predicates(ctx, "R6")
     loader(ctx)
     getters(ctx)
     sorted_maps(ctx)
